@@ -23,7 +23,7 @@ ASSUMPTIONS = ["mutators are only issued in mode r+ here (read-only enforcement 
                "asraggedarray is not called with an empty iterable (no dtype/atom could be inferred)",
                "bool / NumPy-integer truncate indices are not generated"]
 EXHAUSTIVE = None
-MUST_HIT = (['iterappend:manyitems', 'iterappend:from-self', 'iterappend:gen-sets-mode', 'iterappend:readcode-inside', 'append-fills-index-type-exactly', 'env:c-locale', 'ops-inside-open-context', 'trunc-removes-only-zero-length', 'trunc0-then-append', 'reopen-between-ops', 'zero-length-subarray', 'rejected-call',
+MUST_HIT = (['append-beyond-index-type', 'iterappend:manyitems', 'iterappend:from-self', 'iterappend:gen-sets-mode', 'iterappend:readcode-inside', 'append-fills-index-type-exactly', 'env:c-locale', 'ops-inside-open-context', 'trunc-removes-only-zero-length', 'trunc0-then-append', 'reopen-between-ops', 'zero-length-subarray', 'rejected-call',
              'how:create', 'how:as', 'iter_arrays:ok', 'iter_arrays:raises', 'iter_arrays:step!=1', 'nonnative',
              'atomrank:0', 'atomrank:1', 'atomrank:2'] + [f'indextype:{t}' for t in rhist.INDEXTYPES])
 
@@ -70,6 +70,13 @@ def fixed_specs():
             yield {'start': start, 'ops': [{'o': 'fillmax', 'seed': 3}, {'o': 'read', 'triples': [[-1, None, 1]]}, {'o': 'trunc', 'i': -1, 'by': 'obj'},
                                             {'o': 'append', 'item': {'n': 2, 'seed': 4, 'form': 'nd'}}, {'o': 'fillmax', 'seed': 5}, {'o': 'reopen', 'm': 'r+'},
                                             {'o': 'append', 'item': {'n': 0, 'seed': 6, 'form': 'nd'}}]}
+            for style in ('append', 'iter', 'iter-gen', 'iter-many'):
+                for over in (1, 130):
+                    # an append that does not fit the index type, then the array is used on (truncated, appended to, filled exactly)
+                    yield {'start': start, 'ops': [{'o': 'append', 'item': {'n': 100, 'seed': 7, 'form': 'nd'}}, {'o': 'overfill', 'style': style, 'over': over, 'seed': 8},
+                                                    {'o': 'read', 'triples': [[0, None, 1]]}, {'o': 'append', 'item': {'n': 1, 'seed': 9, 'form': 'nd'}},
+                                                    {'o': 'overfill', 'style': 'iter-gen', 'over': 2, 'seed': 10}, {'o': 'trunc', 'i': 1, 'by': 'obj'},
+                                                    {'o': 'fillmax', 'seed': 11}, {'o': 'overfill', 'style': style, 'over': over, 'seed': 12}, {'o': 'reopen', 'm': 'r+'}]}
 
 
 def long_specs():
